@@ -1,5 +1,5 @@
 (* Tools/GenServerRun.v — evaluation harness for the server/client/security models (cases.v files import this). *)
-From GS Require Import Base.Str Tools.GenServer.
+From GS Require Import Base.Str Tools.Decimal Tools.GenServer Tools.IntText Tools.ClientServer.
 
 Definition value_eqb (a b : value) : bool :=
   match a, b with
@@ -28,6 +28,10 @@ Definition judge_r (c : rcase) : bool :=
   | AAbsent => ra_reached c && match ra_values c with None | Some [] => true | Some _ => false end
   | ABound vs => ra_reached c && match ra_values c with Some ws => values_eqb vs ws | None => false end
   end.
+
+(* C04: the text the client writes for a value (swag.FormatInt64 / FormatBool) *)
+Record fcase := { f_val : value; f_text : str }.
+Definition judge_f (c : fcase) : bool := str_eqb (render (f_val c)) (f_text c).
 
 (* C03/C04: splitting by collection format *)
 Record scase := { s_sep : N; s_raw : str; s_items : list str }.
@@ -64,9 +68,9 @@ Definition judge_a (c : acase) : bool :=
   | _, _ => false
   end.
 
-Inductive anycase := CB (c : bcase) | CS (c : scase) | CJ (c : jcase) | CC (c : ccase) | CA (c : acase) | CR (c : rcase).
+Inductive anycase := CB (c : bcase) | CS (c : scase) | CJ (c : jcase) | CC (c : ccase) | CA (c : acase) | CR (c : rcase) | CF (c : fcase).
 Definition judge (c : anycase) : bool :=
-  match c with CB x => judge_b x | CS x => judge_s x | CJ x => judge_j x | CC x => judge_c x | CA x => judge_a x | CR x => judge_r x end.
+  match c with CB x => judge_b x | CS x => judge_s x | CJ x => judge_j x | CC x => judge_c x | CA x => judge_a x | CR x => judge_r x | CF x => judge_f x end.
 Fixpoint run_from (i : nat) (cs : list anycase) : list nat :=
   match cs with [] => [] | c :: r => if judge c then run_from (S i) r else i :: run_from (S i) r end.
 Definition run_cases (cs : list anycase) := run_from 0 cs.
